@@ -77,9 +77,11 @@ pub fn lines(col: &mut Collector, rng: &mut Rng, coords: &[(u8, u32, u32)], thor
 			col.out.line(&format!("pmdir.de {} => {}", if b.is_empty() { "-".into() } else { hex(&b) }, outcome(r, |v| { let s = v.iter().map(fmt_entry).collect::<Vec<_>>().join(";"); format!("ok {}", if s.is_empty() { "-".into() } else { s }) })));
 		}
 		// lookups around every entry
-		let mut ts: Vec<u64> = vec![0, u64::MAX]; for e in &es { for d in [0u64, 1, e.run, e.run.saturating_sub(1), e.run + 1] { ts.push(e.id.saturating_add(d)); } ts.push(e.id.saturating_sub(1)); }
+		let mut ts: Vec<u64> = vec![0, u64::MAX]; for e in &es { for d in [0u64, 1, e.run, e.run.saturating_sub(1), e.run + 1] { ts.push(e.id.saturating_add(d)); } ts.push(e.id.saturating_sub(1));
+			// ids a multiple of 2^32 (and of 2^16, 2^8) behind an entry: not in its run, however the distance is truncated
+			if rng.chance(1, 2) { for k in [1u64 << 32, 3 << 32, 1 << 16, 1 << 8] { ts.push(e.id.saturating_add(k)); ts.push(e.id.saturating_add(k + e.run.saturating_sub(1))); } } }
 		ts.sort(); ts.dedup();
-		for t in ts.into_iter().take(40) {
+		for t in ts.into_iter().take(90) {
 			let r = guarded(|| Ok(v3.find_tile(t)));
 			col.out.line(&format!("pmdir.find {} {t} => {}", fmt_entries(&es), outcome(r, |o| o.map_or("none".into(), |e| fmt_entry(&e)))));
 		}
